@@ -51,6 +51,9 @@ pub struct Wiring {
     /// the passwords are typed at the prompt on a controlling terminal instead of --env-pass
     #[serde(default)]
     pub typed_pass: bool,
+    /// stdin is the terminal as well (an interactive session; only when the data comes from a file argument)
+    #[serde(default)]
+    pub stdin_tty: bool,
 }
 
 #[derive(Serialize, Deserialize, Clone, Debug, PartialEq)]
@@ -263,6 +266,12 @@ fn build_inv(s: &Scn, w: &World, wi: &Wiring, input_name: &str, out_name: &str) 
         inv.stdin = if wi.stdin_pipe { Stdin::Pipe(vec![]) } else { Stdin::File(input_name.to_string()) };
     }
     inv.pass_via_tty = wi.typed_pass;
+    // (a wrong key password typed in an interactive session is asked for again, for as long as it takes:
+    // that combination would wait for a fifth line that nobody types)
+    let asks_again = key_op && s.material == Material::WrongPassword && wi.typed_pass;
+    if wi.in_file && wi.stdin_tty && !asks_again {
+        inv.stdin = Stdin::Tty;
+    }
     inv
 }
 
@@ -333,13 +342,13 @@ impl Family for B1 {
         let mut wirings = vec![];
         if nw == 32 {
             for m in 0..32u32 {
-                wirings.push(Wiring { in_file: m & 1 == 1, stdin_pipe: rng.chance(1, 2) && len <= 60000, out_opt: m & 2 == 2, keyring_opt: m & 4 == 4, long: m & 8 == 8, alias: m & 16 == 16, opts_first: rng.chance(1, 2), in_fifo: rng.chance(1, 5), typed_pass: false });
+                wirings.push(Wiring { in_file: m & 1 == 1, stdin_pipe: rng.chance(1, 2) && len <= 60000, out_opt: m & 2 == 2, keyring_opt: m & 4 == 4, long: m & 8 == 8, alias: m & 16 == 16, opts_first: rng.chance(1, 2), in_fifo: rng.chance(1, 5), typed_pass: false, stdin_tty: false });
             }
         } else {
             // a covering sample: the all-default wiring, its complement, and two random ones
             let m0 = rng.below(32) as u32;
             for m in [m0, !m0 & 31, rng.below(32) as u32, rng.below(32) as u32] {
-                wirings.push(Wiring { in_file: m & 1 == 1, stdin_pipe: rng.chance(1, 2) && len <= 60000, out_opt: m & 2 == 2, keyring_opt: m & 4 == 4, long: m & 8 == 8, alias: m & 16 == 16, opts_first: rng.chance(1, 2), in_fifo: rng.chance(1, 5), typed_pass: false });
+                wirings.push(Wiring { in_file: m & 1 == 1, stdin_pipe: rng.chance(1, 2) && len <= 60000, out_opt: m & 2 == 2, keyring_opt: m & 4 == 4, long: m & 8 == 8, alias: m & 16 == 16, opts_first: rng.chance(1, 2), in_fifo: rng.chance(1, 5), typed_pass: false, stdin_tty: false });
             }
         }
         // a third of the scenarios: a valid decryption of a file from a stranger whose encoded key
@@ -376,6 +385,7 @@ impl Family for B1 {
         let mut t = scn.seed ^ 0x7479;
         for w in scn.wirings.iter_mut() {
             w.typed_pass = crate::rng::splitmix(&mut t) % 4 == 0;
+            w.stdin_tty = w.in_file && crate::rng::splitmix(&mut t) % 3 == 0;
         }
         scn
     }
@@ -710,10 +720,11 @@ impl Family for B1 {
             t.decoy_bad_checksum = false;
             c.push(t);
         }
-        if s.wirings.iter().any(|w| w.typed_pass) {
+        if s.wirings.iter().any(|w| w.typed_pass || w.stdin_tty) {
             let mut t = s.clone();
             for w in t.wirings.iter_mut() {
                 w.typed_pass = false;
+                w.stdin_tty = false;
             }
             c.push(t);
         }
